@@ -100,7 +100,7 @@ var c02HTMLs = []string{
 }
 
 // value part: sinks and static neighbourhoods (pad: blanks at both ends of the static part)
-var c02Sinks = []string{"text", "attr", "attr2", "bound", "bracket"}
+var c02Sinks = []string{"text", "attr", "attr2", "bound", "bracket", "vtext", "vhtml"}
 var c02Nbhs = []string{"none", "plain", "entity", "attrs", "pad"}
 
 func (p *c02) Plan(ctx core.Ctx) int {
@@ -570,6 +570,10 @@ func (p *c02) execValue(o *core.Obs, c c02Case) {
 			o.Cell("value/falsy-bound-skipped")
 			return
 		}
+	}
+	if sink == "vhtml" && strings.ContainsAny(fmt.Sprint(c.Val.Go()), "<>&") {
+		o.Cell("value/vhtml-value-with-markup-characters-skipped")
+		return
 	}
 	el, sinkAttr, lDec, rDec, _ := c01SinkEl(sink, c.Nbh, "v", "")
 	tpl := c01Head + el + c01Tail
